@@ -88,11 +88,11 @@ def subchecks(tier):
                      horizon=(8.0, 24.0), budget=800, load="heavy", resumptions=(1, 2),
                      excluded=())
     return [
-        system_subcheck("system", prof, lambda spec: [ScheduleMonitor(spec)], nontrivial, classes=classes, obs=True,
+        system_subcheck("system", prof, lambda spec: [ScheduleMonitor(spec)], nontrivial, classes=classes, obs=True, log=True,
                         n={"quick": 7200, "thorough": 40000}, rule="scheduled / slotted nodes vs closed-form timetable"),
         system_subcheck("sched_blocked", common.region_profile("C12", excluded=("sched_reroute_blocked", "sched_preempt_blocked_cc", "sched_reroute_self")),
                         lambda spec: [ScheduleMonitor(spec)], lambda a, spec, res: a.get("interruptions", 0) >= 1 and a.get("blocked_records", 0) >= 1,
-                        classes=classes, obs=True, n={"quick": 4800, "thorough": 30000},
+                        classes=classes, obs=True, log=True, n={"quick": 4800, "thorough": 30000},
                         rule="pre-emptive schedules x blocking region (heavy load, grid times); same timetable monitor"),
         SubCheck("generators", gen_execute, cases=gen_cases, kind="unit", exhaustive=True, is_spec=False,
                  rule="all timetables with <= 3 boundaries from an 8-point grid x values 0-2 x 3 offsets; Schedule and Slotted generators over 3 cycles"),
